@@ -20,6 +20,9 @@ func main() {
 		fn   func(string)
 	}{
 		{"entities", genEntities},
+		{"scanner", genScanner},
+		{"unicode", genUnicode},
+		{"defaults", genDefaults},
 	}
 	for _, g := range gens {
 		if *only == "" || *only == g.name {
